@@ -8,6 +8,7 @@ mod render;
 mod util;
 mod cmd_core;
 mod cmd_fuzz;
+mod cmd_conform;
 
 /// Command families.  To add one: create src/cmd_xxx.rs with
 /// `pub fn dispatch(cmd: &str, v: &J) -> Option<Result<J, String>>`, add `mod cmd_xxx;` above
@@ -15,6 +16,7 @@ mod cmd_fuzz;
 const FAMILIES: &[fn(&str, &J) -> Option<Result<J, String>>] = &[
     cmd_core::dispatch,
     cmd_fuzz::dispatch,
+    cmd_conform::dispatch,
 ];
 
 fn dispatch(cmd: &str, v: &J) -> Result<J, String> {
